@@ -14,7 +14,6 @@
 use crate::numref::*;
 use mc_core::{par_range, Ctx, Level, Local};
 use num_bigint::BigInt;
-use num_integer::Roots;
 use num_traits::{One, Signed, Zero};
 use radix_common::math::*;
 use serde_json::{json, Map, Value};
